@@ -211,58 +211,9 @@ Definition refuse_to_patch (o : options) (st : dstate) (output_file : list N) (p
 Definition body_if (should : bool) (p : patch) (s : stream) : M (patch * stream) :=
   if should then mlift (parse_patch_body p s) else mret (p, s).
 
-(* one section of the loop in process_patch, after the header has been parsed *)
-Definition process_section (o : options) (st : dstate) (should : bool) (p : patch) (s : stream)
-  : M (dstate * stream) :=
-  let! m := get_fs in
-  let file_to_patch := if is_nil (file_to_patch o) then guess_filepath m (map d_dest (deferred_writes st)) p o else file_to_patch o in
-  if is_nil file_to_patch then mthrow ESystem               (* prompt_for_filepath: there is no terminal *)
-  else
-  let output_file := output_path o p file_to_patch in
-  if exists_ m file_to_patch && negb (is_regular_file m file_to_patch) then
-    let! ps := body_if should p s in
-    let! st' := refuse_to_patch o st output_file (fst ps) in mret (st', snd ps)
-  else
-  let old_perms := get_permissions m output_file in
-  let needed := N.eqb (N.land old_perms write_mask) 0 in
-  if needed && match read_only o with ROFail => true | _ => false end then
-    let! ps := body_if should p s in
-    let! st' := refuse_to_patch o st output_file (fst ps) in mret (st', snd ps)
-  else
-  let old_perms1 :=
-    if N.eqb old_perms perms_unknown && match poper p with OpRename | OpCopy => true | _ => false end
-    then get_permissions m file_to_patch else old_perms in
-  (* read the file to patch *)
-  (* DeferredWriter::pending_write_to: the last deferred write to this path, unless it is the write of a rename / copy
-     over a name that exists *)
-  let pending := match find (fun d => str_eqb (d_dest d) file_to_patch) (rev (deferred_writes st)) with
-                 | Some d => if d_newname d && exists_ m file_to_patch then None else Some (d_data d)
-                 | None => None
-                 end in
-  let! input_lines :=
-    (match pending with
-     | Some data => mret (split_lines data)
-     | None =>
-         let! r := perform (OOpenRead file_to_patch) in
-         match r with
-         | None => match stat m file_to_patch with
-                   | Some (Reg d _) => mret (split_lines d)
-                   | _ => mthrow ESystem                      (* reading a directory fails *)
-                   end
-         | Some ENOENT => if is_adding_file p o then mret [] else mthrow ESystem
-         | Some _ => mthrow ESystem
-         end
-     end) in
-  let! _ := (if negb (is_nil (prereq p)) && negb (has_prerequisite input_lines (prereq p)) then
-               if batch o then mthrow ERuntime else if force o then mret tt else mthrow ESystem
-             else mret tt) in
-  let p1 := match poper p with
-            | OpRename => if str_eqb file_to_patch output_file then set_oper p OpChange else p
-            | _ => p
-            end in
-  let! ps := body_if should p1 s in
-  let '(p2, s2) := ps in
-  let! ar := mlift (apply_patch o input_lines p2) in
+(* what a section does once its hunks have been applied to the lines read: messages, rejects, and the writes *)
+Definition section_tail (o : options) (st : dstate) (file_to_patch output_file : list N) (old_perms old_perms1 : N) (needed : bool)
+           (ar : aresult) (s2 : stream) : M (dstate * stream) :=
   let p3 := r_patch ar in
   let out_bytes := lines_bytes (newline_output o) (r_out ar) in
   let st1 := add_event st (r_msgs ar) in
@@ -327,6 +278,61 @@ Definition process_section (o : options) (st : dstate) (should : bool) (p : patc
        else let! _ := remove_file_and_empty_parent_folders file_to_patch in mret st5
      else mret st5) in
   mret (st6, s2).
+
+
+(* one section of the loop in process_patch, after the header has been parsed *)
+Definition process_section (o : options) (st : dstate) (should : bool) (p : patch) (s : stream)
+  : M (dstate * stream) :=
+  let! m := get_fs in
+  let file_to_patch := if is_nil (file_to_patch o) then guess_filepath m (map d_dest (deferred_writes st)) p o else file_to_patch o in
+  if is_nil file_to_patch then mthrow ESystem               (* prompt_for_filepath: there is no terminal *)
+  else
+  let output_file := output_path o p file_to_patch in
+  if exists_ m file_to_patch && negb (is_regular_file m file_to_patch) then
+    let! ps := body_if should p s in
+    let! st' := refuse_to_patch o st output_file (fst ps) in mret (st', snd ps)
+  else
+  let old_perms := get_permissions m output_file in
+  let needed := N.eqb (N.land old_perms write_mask) 0 in
+  if needed && match read_only o with ROFail => true | _ => false end then
+    let! ps := body_if should p s in
+    let! st' := refuse_to_patch o st output_file (fst ps) in mret (st', snd ps)
+  else
+  let old_perms1 :=
+    if N.eqb old_perms perms_unknown && match poper p with OpRename | OpCopy => true | _ => false end
+    then get_permissions m file_to_patch else old_perms in
+  (* read the file to patch *)
+  (* DeferredWriter::pending_write_to: the last deferred write to this path, unless it is the write of a rename / copy
+     over a name that exists *)
+  let pending := match find (fun d => str_eqb (d_dest d) file_to_patch) (rev (deferred_writes st)) with
+                 | Some d => if d_newname d && exists_ m file_to_patch then None else Some (d_data d)
+                 | None => None
+                 end in
+  let! input_lines :=
+    (match pending with
+     | Some data => mret (split_lines data)
+     | None =>
+         let! r := perform (OOpenRead file_to_patch) in
+         match r with
+         | None => match stat m file_to_patch with
+                   | Some (Reg d _) => mret (split_lines d)
+                   | _ => mthrow ESystem                      (* reading a directory fails *)
+                   end
+         | Some ENOENT => if is_adding_file p o then mret [] else mthrow ESystem
+         | Some _ => mthrow ESystem
+         end
+     end) in
+  let! _ := (if negb (is_nil (prereq p)) && negb (has_prerequisite input_lines (prereq p)) then
+               if batch o then mthrow ERuntime else if force o then mret tt else mthrow ESystem
+             else mret tt) in
+  let p1 := match poper p with
+            | OpRename => if str_eqb file_to_patch output_file then set_oper p OpChange else p
+            | _ => p
+            end in
+  let! ps := body_if should p1 s in
+  let '(p2, s2) := ps in
+  let! ar := mlift (apply_patch o input_lines p2) in
+  section_tail o st file_to_patch output_file old_perms old_perms1 needed ar s2.
 
 Fixpoint section_loop (fuel : nat) (o : options) (f : format) (st : dstate) (s : stream) (first : bool) : M dstate :=
   match fuel with
